@@ -164,6 +164,9 @@ class World:
         self.env_async = {c: jinja2.Environment(undefined=k, enable_async=True) for c, k in self.cls.items()}
         from jinja2.sandbox import SandboxedEnvironment
         self.env_sbx = {c: SandboxedEnvironment(undefined=k) for c, k in self.cls.items()}
+        from jinja2.nativetypes import NativeEnvironment
+        self.env_native = {c: NativeEnvironment(undefined=k) for c, k in self.cls.items()}
+        self.env_native_async = {c: NativeEnvironment(undefined=k, enable_async=True) for c, k in self.cls.items()}
         self.origin = "name"
         self.UndefinedError = jinja2.exceptions.UndefinedError
         self.cache = {}
@@ -207,7 +210,12 @@ class World:
     def tmpl(self, c, text, is_async=False):
         key = (c, "T", text, is_async)
         if key not in self.cache:
-            envs = self.env_sbx if "obj.__class__" in text else (self.env_async if is_async else self.env)
+            if is_async == "native":
+                envs = self.env_native
+            elif is_async == "native-async":
+                envs = self.env_native_async
+            else:
+                envs = self.env_sbx if "obj.__class__" in text else (self.env_async if is_async else self.env)
             self.cache[key] = envs[c].from_string(text)
         return self.cache[key]
 
@@ -419,14 +427,22 @@ def observe(w, c, origin, op, path, msgs):
             v = w.vars(c)
             if o:
                 v["x"] = x
-            if kind in ("T", "A"):
+            if path in ("template-native", "template-native-async"):
+                # a native environment with SEVERAL output nodes prints every node (a lone node would be returned)
+                r = w.tmpl(c, "<<" + src + ">>", path[len("template-"):]).render(**v)
+                if not (isinstance(r, str) and r.startswith("<<") and r.endswith(">>")):
+                    r = "NATIVE-NOT-TEXT:" + repr(r)[:60]
+                else:
+                    r = r[2:-2]
+            elif kind in ("T", "A"):
                 r = w.tmpl(c, src, kind == "A" or path == "template-async").render(**v)
                 if r == "ITER-EMPTY" and p[0] not in ("iter", "aiter"):
                     r = "str:ITER-EMPTY"
-                if p[0] == "bool" and r in ("BOOL-TRUE", "BOOL-FALSE"):
-                    r = (r == "BOOL-TRUE")
+
             else:
                 r = w.expr(c, src)(**v)
+            if p[0] == "bool" and isinstance(r, str) and r in ("BOOL-TRUE", "BOOL-FALSE"):
+                r = (r == "BOOL-TRUE")
         if r == "ITER-EMPTY":
             out = "ok:iter-empty"
         elif r == "HASH-CLASS":
@@ -590,7 +606,7 @@ def judge(ctx, w, results):
         lw = log_oracle(c, op, real)
         ctx.case(sample=dict(case, observed=real, model=model, documented=spec) if (hash(str(cell)) % 977 == 0) else None,
                  key=(c, origin, op, path))
-        ctx.count(("documented" if spec != "unspecified" else "unspecified") + "/" + (path if path == "template-async" else path.split("-")[0]))
+        ctx.count(("documented" if spec != "unspecified" else "unspecified") + "/" + (path if path.startswith("template-") else path.split("-")[0]))
         if why:
             sig = f"C21:{c}:{op}:{spec}"
             if op == "arith:add:rev:markup" and c in ("NBC", "LBC") and real.startswith("ok:builtin"):
@@ -650,6 +666,29 @@ def default_logger_history(ctx):
                    f"two logged events produced {len(lines)} lines on the default logger (rc={rc})", "C21:history:default-logger-handlers")
     else:
         ctx.validated()
+
+
+def logging_constant_folding(ctx, w):
+    """a logging undefined printed inside an expression the compiler can fold: the print must be logged when the
+    template is RENDERED (every time), not only when it is compiled"""
+    from jinja2.runtime import make_logging_undefined
+    for src, data in (("{{ {}.k ~ 'z' }}", {}), ("{{ [][3] ~ 'z' }}", {}), ("{{ dd.k ~ 'z' }}", {"dd": {}})):
+        lg = Logger()
+        env = w.jinja2.Environment(undefined=make_logging_undefined(lg))
+        t = env.from_string(src)
+        at_compile = len(lg.events)
+        lg.events.clear()
+        t.render(**data)
+        t.render(**data)
+        at_render = len([e for e in lg.events if e[0] == "W"])
+        ctx.case(key=("folding", src))
+        ctx.count("logging/constant-folding")
+        if at_render != 2:
+            ctx.reject({"template": src, "warnings_at_compile": at_compile, "warnings_in_two_renders": at_render},
+                       f"printing a logging undefined in {src!r} logged {at_compile} warning(s) at compile time and {at_render} in two renders (expected one per render)",
+                       "C21:logging:folded-print-logged-at-compile-only")
+        else:
+            ctx.validated()
 
 
 def probes(ctx, w):
@@ -730,6 +769,8 @@ def run(ctx):
                     cells += [(c, origin, op, v) for v in ("direct-lead", "direct-trail", "direct-under")]
                 if op in ("str", "bool") and origin != "unsafe":
                     cells.append((c, origin, op, "template-async"))     # the same template in an enable_async environment
+                    cells.append((c, origin, op, "template-native"))    # ... printed inside a multi-node native template
+                    cells.append((c, origin, op, "template-native-async"))
                 # (a call written in a SANDBOXED template goes through SandboxedEnvironment.call's own gate, which
                 # probes obj.unsafe_callable / alters_data first: C18's subject, not modelled here)
                 light = ctx.tier != "thorough" and op.split(":")[-1] in ("bool", "tuple", "dict", "bytes")   # quick: these kinds directly only
@@ -748,6 +789,7 @@ def run(ctx):
     probes(ctx, w)
     unspecified_probes(ctx, w)
     default_logger_history(ctx)
+    logging_constant_folding(ctx, w)
 
 
 def replay(ctx, data):
